@@ -175,6 +175,8 @@ def cases(tier, rng, dist, focus=None):
                "keep": rng.random() < 0.5, "num": rng.choice(["np", "py"]), "mode": rng.choice(["random"] * 4 + ["zero", "max"]), "aseed": rng.randint(0, 10**9)}
     for _ in range(N // 3):
         n = rng.randint(1, 7)
+        if n == 1 and rng.random() < 0.5:
+            yield {"f": "prng", "seed": real_seed(rng), "gseed": rng.randint(0, 10**6)}
         yield {"f": "permute", "x": [str(Fraction(rng.randint(0, 3))) for _ in range(n)], "mode": rng.choice(["random", "random", "zero", "max"]), "aseed": rng.randint(0, 10**9)}
     for _ in range(N // 3):
         n = rng.randint(1, 5)
@@ -256,6 +258,8 @@ def run(c):
         return run_permute(c)
     if f == "pot":
         return run_pot(c)
+    if f == "prng":
+        return run_prng(c)
     return run_real(c)
 
 
@@ -358,7 +362,7 @@ def real_call(c, seed, keep=True):
         return core.two_sample(x, y, reps=c["reps"], stat=c["stat"], alternative=c["alt"], keep_dist=keep, seed=seed, plus1=c["plus1"]), (x, y)
     if fn == "two_sample_shift":
         # scalar shift, or a non-additive pair (f(u)=2u): the two potential-outcome columns then differ by more than a constant
-        sh = 0.5 if c["seed"] % 2 else (lambda u: u * 2.0, lambda u: u / 2.0)
+        sh = 0.5 if seed_int(c["seed"]) % 2 else (lambda u: u * 2.0, lambda u: u / 2.0)
         return core.two_sample_shift(x, y, reps=c["reps"], stat=c["stat"], alternative=c["alt"], keep_dist=keep, seed=seed, plus1=c["plus1"], shift=sh), (x, y)
     if fn == "one_sample":
         return core.one_sample(x, None, reps=c["reps"], stat=c["stat"], alternative=c["alt"], keep_dist=keep, seed=seed, plus1=c["plus1"]), (x,)
@@ -400,7 +404,7 @@ def run_named_on_tape(c):
         r = guarded(lambda: core.two_sample(x, y, reps=c["reps"], stat=c["stat"], alternative=c["alt"], keep_dist=True, seed=t, plus1=c["plus1"]))
         col0 = list(x) + list(y); col1 = col0
     elif fn == "two_sample_shift":
-        if c["seed"] % 2:
+        if seed_int(c["seed"]) % 2:
             sh = 0.5; col0 = list(x) + [v + 0.5 for v in y]; col1 = [v - 0.5 for v in x] + list(y)
         else:
             sh = _scale_pair(2.0, 2.0); col0 = list(x) + [v * 2.0 for v in y]; col1 = [v / 2.0 for v in x] + list(y)
@@ -425,6 +429,37 @@ def run_named_on_tape(c):
     return {"r": ["ok", float(r[1][0]), float(r[1][1]), [float(v) for v in r[1][2]]], "expected": exp, "leftover": len(ans)}
 
 
+def run_prng(c):
+    """the contract of utils.get_prng: seed -> generator"""
+    s = c["seed"]; out = {}
+    np.random.seed(c["gseed"]); g0 = global_state()
+    a = guarded(lambda: utils.get_prng(s)); g1 = global_state()
+    out["seeded_is_sha"] = a[0] == "ok" and isinstance(a[1], SHA256)
+    out["seeded_global_same"] = g0 == g1
+    if a[0] == "ok":
+        b = SHA256(s)
+        out["same_stream"] = [int(a[1].randint(0, 1000)) for _ in range(5)] == [int(b.randint(0, 1000)) for _ in range(5)]
+    rs = np.random.RandomState(seed_int(s)); sh = SHA256(s)
+    out["rs_passthrough"] = utils.get_prng(rs) is rs
+    out["sha_passthrough"] = utils.get_prng(sh) is sh
+    out["bad"] = [list(guarded(lambda: utils.get_prng([1, 2])))[:2], list(guarded(lambda: utils.get_prng({"a": 1})))[:2], list(guarded(lambda: utils.get_prng(object())))[:2]]
+    np.random.seed(c["gseed"]); g0 = global_state()
+    n = guarded(lambda: utils.get_prng(None)); g1 = global_state()
+    out["none_is_sha"] = n[0] == "ok" and isinstance(n[1], SHA256)
+    out["none_draws_from_global"] = g0 != g1
+    return out
+
+
+def oracle_prng(c, o):
+    bad = [k for k in ("seeded_is_sha", "seeded_global_same", "same_stream", "rs_passthrough", "sha_passthrough", "none_is_sha", "none_draws_from_global") if not o.get(k, False)]
+    if bad:
+        cls = "get_prng:global-rng" if bad == ["seeded_global_same"] else "get_prng:int-vs-sha256" if "same_stream" in bad else "get_prng:contract"
+        return {"why": f"get_prng({c['seed']!r}): contract violated: {bad}", "cls": cls}
+    if any(b != ["exc", "ValueError"] for b in o["bad"]):
+        return {"why": f"get_prng accepted an object that cannot seed a generator (list / dict / object()): {o['bad']}", "cls": "get_prng:contract"}
+    return None
+
+
 def run_real(c):
     out = {}
     def one(tag, mkseed, gseed, keep=True):
@@ -439,15 +474,15 @@ def run_real(c):
     one("int1", lambda: c["seed"], c["gseed"])
     one("int2", lambda: c["seed"], c["gseed"] + 1)
     one("sha", lambda: SHA256(c["seed"]), c["gseed"] + 2)
-    one("rs1", lambda: np.random.RandomState(c["seed"] % 2**32), c["gseed"] + 3)
-    one("rs2", lambda: np.random.RandomState(c["seed"] % 2**32), c["gseed"] + 4)
+    one("rs1", lambda: np.random.RandomState(seed_int(c["seed"])), c["gseed"] + 3)
+    one("rs2", lambda: np.random.RandomState(seed_int(c["seed"])), c["gseed"] + 4)
     if c["fn"] in ("two_sample", "two_sample_shift", "one_sample", "k_sample"):
         one("nokeep", lambda: c["seed"], c["gseed"] + 5, keep=False)
     if c["fn"] in ("two_sample", "two_sample_shift", "one_sample") and c["stat"] in ("mean", "t"):
         out["named_tape"] = run_named_on_tape(c)
     if c["fn"] in ("two_sample", "one_sample"):
         # every generator type: what the statistic receives must be an admissible rearrangement of the data
-        for tag, mk in (("rec_rs", lambda: np.random.RandomState(c["seed"] % 2**32)), ("rec_int", lambda: c["seed"])):
+        for tag, mk in (("rec_rs", lambda: np.random.RandomState(seed_int(c["seed"]))), ("rec_int", lambda: c["seed"])):
             rec = []
             x = np.array(c["x"], dtype=float); y = np.array(c["y"], dtype=float)
             if c["fn"] == "two_sample":
@@ -868,7 +903,7 @@ def oracle_real(c, o):
 
 def oracle(c, o):
     return {"two_sample": oracle_two, "one_sample": oracle_one, "corr": oracle_corr, "k_sample": oracle_k, "permute": oracle_permute,
-            "pot": oracle_pot, "real": oracle_real}[c["f"]](c, o)
+            "pot": oracle_pot, "real": oracle_real, "prng": oracle_prng}[c["f"]](c, o)
 
 
 def nontrivial(c, o):
